@@ -91,7 +91,7 @@ func (e *Engine) havocBase(st *State, elem types.Type, base *smt.Term) {
 
 var intrinsicNames = map[string]bool{"vAssume": true, "vAssert": true, "vRequires": true, "vEnsures": true, "vModifies": true,
 	"vNondet": true, "vOld": true, "vForall": true, "vInvariant": true, "vBody": true, "vStep": true, "vCallCount": true,
-	"vCallArg": true, "vSameSlice": true, "vFresh": true, "vSeparate": true, "vJoined": true, "vSame": true, "VSeparate": true, "vDistinctBacking": true, "vHavocRange": true, "vCallAnon": true, "vMkTime": true, "vTimeNanos": true}
+	"vCallArg": true, "vSameSlice": true, "vFresh": true, "vSeparate": true, "vJoined": true, "vSame": true, "VSeparate": true, "vDistinctBacking": true, "vHavocRange": true, "vCallAnon": true, "vMkTime": true, "vTimeNanos": true, "vCallAnonErr": true}
 
 func constString(v ssa.Value) string {
 	if c, ok := v.(*ssa.Const); ok && c.Value != nil && c.Value.Kind() == constant.String {
@@ -237,48 +237,21 @@ func (e *Engine) intrinsic(st *State, fn *ssa.Function, name string, args []Valu
 		_, out := e.callValue(st, args[0], nil, args[0].T.Underlying().(*types.Signature), pos)
 		e.paths = saveP
 		return nil, out, true
+	case "vCallAnonErr":
+		// like vCallAnon; the single result is stored through the first argument
+		r, out, ok := e.intrinsicCallAnon(st, args[1:], pos)
+		if !ok || out == nil {
+			return nil, out, true
+		}
+		if r != nil {
+			rv := *r
+			rv.T = args[0].T.Underlying().(*types.Pointer).Elem()
+			e.storeAt(out, args[0], rv)
+		}
+		return nil, out, true
 	case "vCallAnon":
-		// vCallAnon(name, freeVars []any, args ...any): call the anonymous function `name` of the code under contract with
-		// the given bindings for its captured variables (pointers to variables of the right types) and arguments
-		fname := label(0)
-		target := e.W.FuncByName(fname)
-		if target == nil {
-			panic(unsupported("vCallAnon: no function " + fname))
-		}
-		unboxAll := func(sv Value) []Value {
-			if !sv.L[2].IsConst() {
-				panic(unsupported("vCallAnon: non-constant argument count"))
-			}
-			anyT := sv.T.Underlying().(*types.Slice).Elem()
-			var out []Value
-			for k := uint64(0); k < sv.L[2].Val; k++ {
-				p := Value{T: types.NewPointer(anyT), L: []*smt.Term{sv.L[0], c.Add(sv.L[1], e.k64(k)), e.k64(uint64(e.placeForPointee(anyT)))}}
-				out = append(out, e.unboxAny(st, e.loadAt(st, p, anyT)))
-			}
-			return out
-		}
-		binds := unboxAll(args[1])
-		var cargs []Value
-		if len(args) > 2 && len(args[2].L) > 0 {
-			cargs = unboxAll(args[2])
-		}
-		if len(binds) != len(target.FreeVars) || len(cargs) != len(target.Params) {
-			panic(unsupported(fmt.Sprintf("vCallAnon %s: expects %d captured variables and %d arguments", fname, len(target.FreeVars), len(target.Params))))
-		}
-		for k, fv := range target.FreeVars {
-			binds[k].T = fv.Type()
-		}
-		r, out := e.callFunction(st, target, cargs, binds, pos)
+		r, out, _ := e.intrinsicCallAnon(st, args, pos)
 		return r, out, true
-	case "vMkTime":
-		// time.Time abstracted to nanoseconds since the epoch, kept in the `ext` leaf (wall = 0, loc = nil)
-		rt := fn.Signature.Results().At(0).Type()
-		v := e.zero(rt)
-		v.L[1] = args[0].L[0]
-		return &v, st, true
-	case "vTimeNanos":
-		v := Value{T: types.Typ[types.Int64], L: []*smt.Term{args[0].L[1]}}
-		return &v, st, true
 	case "vHavocRange":
 		// vHavocRange(s any): the elements s[0:len(s)] take unknown values (models say what they know afterwards)
 		sv := e.unboxAny(st, args[0])
@@ -327,4 +300,44 @@ func (e *Engine) callerOfWrapper() string {
 		return e.callStack[len(e.callStack)-2]
 	}
 	return e.harness.Name
+}
+
+func (e *Engine) intrinsicCallAnon(st *State, args []Value, pos token.Pos) (*Value, *State, bool) {
+	c := e.C
+	fname, ok := e.litOf(args[0])
+	if !ok {
+		panic(unsupported("vCallAnon: function name must be a constant string"))
+	}
+	target := e.W.FuncByName(fname)
+	if target == nil {
+		panic(unsupported("vCallAnon: no function " + fname))
+	}
+	unboxAll := func(sv Value) []Value {
+		if !sv.L[2].IsConst() {
+			panic(unsupported("vCallAnon: non-constant argument count"))
+		}
+		anyT := sv.T.Underlying().(*types.Slice).Elem()
+		var out []Value
+		for k := uint64(0); k < sv.L[2].Val; k++ {
+			p := Value{T: types.NewPointer(anyT), L: []*smt.Term{sv.L[0], c.Add(sv.L[1], e.k64(k)), e.k64(uint64(e.placeForPointee(anyT)))}}
+			out = append(out, e.unboxAny(st, e.loadAt(st, p, anyT)))
+		}
+		return out
+	}
+	binds := unboxAll(args[1])
+	var cargs []Value
+	if len(args) > 2 && len(args[2].L) > 0 {
+		cargs = unboxAll(args[2])
+	}
+	if len(binds) != len(target.FreeVars) || len(cargs) != len(target.Params) {
+		panic(unsupported(fmt.Sprintf("vCallAnon %s: expects %d captured variables and %d arguments", fname, len(target.FreeVars), len(target.Params))))
+	}
+	for k, fv := range target.FreeVars {
+		binds[k].T = fv.Type()
+	}
+	for k, p := range target.Params {
+		cargs[k].T = p.Type()
+	}
+	r, out := e.callFunction(st, target, cargs, binds, pos)
+	return r, out, true
 }
